@@ -124,7 +124,10 @@ def evaluate(ctx, part0, sessions, contents, refs, do_minimize=True, tag=None):
             known = fw.match_finding(fw.load_findings(), ctx.pid, key) is not None
             cut = dict(s, ops=s['ops'][:i + 1])
             if do_minimize and not known and failures < 2:
-                cut = S.minimize(ctx, cut, contents, lambda cands: _still(ctx, cands, contents, refs, key))
+                try:
+                    cut = S.minimize(ctx, cut, contents, lambda cands: _still(ctx, cands, contents, refs, key))
+                except Exception as e:  # noqa  (the unminimised history is still a valid replay)
+                    ctx.note(f'minimisation of {key} stopped: {e!r}'[:300])
             failures += 0 if known else 1
             obs = r['obs'][i]
             ctx.violate('property', key, f'{WHAT[code]}{" (" + why + ")" if why else ""}; history of {len(cut["ops"])} operations, '
@@ -174,7 +177,7 @@ def build_pool(ctx, n, with_mixes=True):
             ok_ids.append(c)
         elif r[0] != 'ret':
             bad_ids.append(c)
-    mixes = S.combos(contents, ok_ids[:2] + ok_ids[-2:] + bad_ids[:1]) if with_mixes else []
+    mixes = S.combos(contents, ok_ids[:2] + ok_ids[-1:] + bad_ids[:1]) if with_mixes else []
     refs.ensure(range(len(contents)))
     ctx.count('pool', evaluations=len(contents), contents_ok=len(ok_ids), contents_failing=len(bad_ids), base_plus_params=len(mixes),
               failing_kinds={refs.of(c)[2][:60]: 1 for c in bad_ids})
